@@ -43,6 +43,31 @@ CLAIMED["C08"] = (
     "Exhaustive model checking of both timers for all op/clock sequences in the bounds plus conformance of the real classes: "
     "every Tymer report must equal the exact value; MonoTimer reports must be exact while the clock has not stepped back and "
     "monotone/sticky afterwards.", "3 C08", TIME_NOTE)
+CLAIMED["C23"] = (
+    "TLA+ spec specs/store/Queue.tla (cache + durable mirror + abstract queue/set, one action per public operation structured "
+    "like the code, close/reopen/resync of the store between any two operations): TLC exhaustive MC of Mirror/IsModel/"
+    "NoMismatch/SetUnique/FifoPull; operation histories with expected result, content and durable content (all short ones + "
+    "tlc -simulate) executed on real Durq/Dusq injected by a real Hold over a real Subery (LMDB) (spec->code)",
+    "Exhaustive model checking of the queue/set design with reopen at every point, within the bounds, plus conformance of the real "
+    "classes over a real LMDB store on every enumerated and on thousands of simulated histories (result, list(q) and sdb.get(key) "
+    "after every operation, before and after reopen).", "3 C23", "")
+CLAIMED["C24"] = (
+    "TLA+ spec specs/store/KeyStore.tla (dictionary + implementation model of the ordered key space with real byte-string keys "
+    "and 32-hex-digit ordinals, every method the cursor scan the code performs): TLC exhaustive MC of ResultsAgree/ContentAgrees "
+    "on key sets with prefixes and separator characters; on key sets with the known finding's signature TLC is expected to reach "
+    "the violation; operation histories executed on real Suber/IoSuber/IoSetSuber over LMDB and compared with the dictionary "
+    "(spec->code), a difference being the listed finding only if the implementation model predicts exactly that result",
+    "Exhaustive model checking of dictionary refinement by the key-space implementation within the bounds plus conformance of the "
+    "three real classes on every enumerated and simulated history; one known finding (key interleaving) matched by signature.",
+    "3 C24", "")
+CLAIMED["C26"] = (
+    "TLA+ spec specs/misc/B64.tla (digit/bit-sequence specification of the conversions + the code's arithmetic transcribed): "
+    "TLC exhaustive MC of ArithIsSpec/IntInverse/CodeInverse/NabKeepsLeadingBits; expected results of every conversion for every "
+    "input of the domain replayed on the real functions (spec->code); recorded calls on long inputs validated in batch by "
+    "B64Trace.tla (code->spec)",
+    "Exhaustive model checking of the inverse laws and of the arithmetic for every input in the bounds (all 1-3 sextet strings, "
+    "boundary alphabets up to 6) plus conformance of the six real functions on every such input and on recorded calls with inputs "
+    "of up to 24 sextets.", "3 C26", "")
 NA = {
  "C28": "pure value-fidelity of json/cbor2/msgpack + dataclass reflection: no state/transition structure for a TLA+ model to decide (DESIGN.md section 4)",
 }
